@@ -45,8 +45,8 @@ Requests == {r \in [query : QF, op : OF, vars : VF, ext : EF] : NumSet(r) <= Max
 Variants == { [rev |-> FALSE, extra |-> "none"], [rev |-> TRUE, extra |-> "unknown"], [rev |-> FALSE, extra |-> "snake"] }
 V0 == [rev |-> FALSE, extra |-> "none"]
 V1r == [rev |-> TRUE, extra |-> "unknown"]
-\* bounded runs (MaxSet < 4) give the "snake" variant only to requests with at most one field present (and the diagonal)
-VariantsFor(r) == IF MaxSet >= 4 \/ NumSet(r) <= 1 \/ r \in Diagonal THEN Variants ELSE {V0, V1r}
+\* small runs (MaxSet < 3) give the "snake" variant only to requests with at most one field present (and the diagonal)
+VariantsFor(r) == IF MaxSet >= 3 \/ NumSet(r) <= 1 \/ r \in Diagonal THEN Variants ELSE {V0, V1r}
 
 BatchPool == << AReq(Val(JStr("QDOC")), Val(JStr("PLAIN")), Val(V2), Val(E1)),
                 AReq(Val(JStr("AMP")), Absent, Null, Absent),
@@ -116,7 +116,7 @@ ASSUME DevLocality
 --------------------------------------------------------------------------------
 (* (b) schedules.  sched: sequence of gate numbers to open; 0 = poll.          *)
 svars == <<bvars, sched, case>>
-ExecAtoms == <<"QUOTE", "UNI", "AMP">>
+ExecAtoms == <<"QUOTE", "UNI", "AMP", "PCT">>
 ExecReq(i) == AReq(Val(JStr("QDOC")),
                    IF i = 1 THEN Val(JStr("OPQ")) ELSE IF i = 2 THEN Absent ELSE Null,
                    Val(JObj(<<Mem("m", JInt(i)), Mem("s", JStr(ExecAtoms[i]))>>)), Absent)
